@@ -8,3 +8,6 @@ import QlibcModel.Props.C01
 #print axioms Qlibc.Props.C01.find_max_refines
 #print axioms Qlibc.Props.C01.clear_refines
 #print axioms Qlibc.Props.C01.put_count
+#print axioms Qlibc.Props.C01.remove_refines
+#print axioms Qlibc.Props.C01.other_keys_untouched
+#print axioms Qlibc.Props.C01.history_refines
